@@ -26,10 +26,11 @@ type c02Beh struct {
 	NOuts  int
 	Pub    string // accept | error | error-canceled | error-wrapped-canceled | panic
 	ErrK   string // for End == "err": plain | canceled | wrapped-canceled
+	Late   string // "" | ack | nack: a goroutine started by the handler settles the message WHILE the router's own settlement is in progress
 }
 
 func (b c02Beh) String() string {
-	return fmt.Sprintf("self=%s,end=%s/%s%s,outs=%d,pub=%s", b.Self, b.End, b.PanicV, b.ErrK, b.NOuts, b.Pub)
+	return fmt.Sprintf("self=%s,end=%s/%s%s,outs=%d,pub=%s,late=%s", b.Self, b.End, b.PanicV, b.ErrK, b.NOuts, b.Pub, b.Late)
 }
 
 type c02Case struct {
@@ -66,7 +67,7 @@ func c02AllBehs(hasPub bool) []c02Beh {
 					}
 					for _, p := range pubs {
 						for _, ek := range errks {
-							out = append(out, c02Beh{self, end, pv, n, p, ek})
+							out = append(out, c02Beh{self, end, pv, n, p, ek, ""})
 						}
 					}
 				}
@@ -84,6 +85,21 @@ func runC02(c *Ctx) error {
 		for _, prefix := range []string{"none", "pass", "append"} {
 			for _, b := range c02AllBehs(hp) {
 				cases = append(cases, c02Case{HasPub: hp, Prefix: prefix, Msgs: []c02Beh{b}})
+			}
+		}
+	}
+	// (1b) the handler's own goroutine settles the message concurrently with the router's settlement (parked inside it)
+	for _, hp := range []bool{true, false} {
+		for _, end := range []string{"ok", "err"} {
+			for _, late := range []string{"ack", "nack"} {
+				b := c02Beh{Self: "none", End: end, Pub: "accept", Late: late}
+				if end == "err" {
+					b.ErrK = "plain"
+				}
+				if hp && end == "ok" {
+					b.NOuts = 1
+				}
+				cases = append(cases, c02Case{HasPub: hp, Prefix: "none", Msgs: []c02Beh{b}})
 			}
 		}
 	}
@@ -140,6 +156,7 @@ func c02Run(r *tr.Run, cs c02Case, rng *rand.Rand) (gateReached bool) {
 	beh := map[string]c02Beh{}
 	consumed := map[string]*message.Message{}
 	var outMu sync.Mutex
+	var lateWg sync.WaitGroup
 	returned := map[string][]*message.Message{} // outputs as returned by the chain, by consumed id
 	snap := map[*message.Message]string{}
 
@@ -156,6 +173,38 @@ func c02Run(r *tr.Run, cs c02Case, rng *rand.Rand) (gateReached bool) {
 		case "nack":
 			r.Emit("hself", "m", mid(msg.UUID), "kind", "nack")
 			msg.Nack()
+		}
+		if b.Late != "" {
+			m := mid(msg.UUID)
+			ga, gn := sched.Park("message.ack.locked", msg.UUID), sched.Park("message.nack.locked", msg.UUID)
+			lateWg.Add(1)
+			go func() {
+				defer lateWg.Done()
+				defer ga.Release()
+				defer gn.Release()
+				arrived := false
+				for i := 0; i < 300 && !arrived; i++ {
+					arrived = ga.Arrived(time.Millisecond) || gn.Arrived(time.Millisecond)
+				}
+				// the router is inside its own Ack/Nack of the message now
+				res := make(chan bool, 1)
+				go func() {
+					if b.Late == "ack" {
+						res <- msg.Ack()
+					} else {
+						res <- msg.Nack()
+					}
+				}()
+				time.Sleep(3 * time.Millisecond)
+				ga.Release()
+				gn.Release()
+				select {
+				case ok := <-res:
+					r.Emit("hlate", "m", m, "kind", b.Late, "res", ok, "parked", arrived)
+				case <-time.After(HangBound):
+					r.Emit("hung", "what", "late settlement never returned")
+				}
+			}()
 		}
 		var outs []*message.Message
 		for k := 1; k <= b.NOuts; k++ {
@@ -347,6 +396,7 @@ func c02Run(r *tr.Run, cs c02Case, rng *rand.Rand) (gateReached bool) {
 		r.Emit("hung", "what", "router close")
 		return
 	}
+	<-waitOr(waitWG(&lateWg), HangBound)
 	final := [][]string{}
 	for _, m := range ids {
 		final = append(final, []string{m, scripted.SettleState(consumed[m])})
